@@ -33,7 +33,7 @@ class Result:
 
 class Part:
     def __init__(self, name, strategy, execute, quick, thorough, shards=16, exhaustive=None,
-                 shrink_quick=True, quick_shards=8):
+                 shrink_quick=True, quick_shards=8, machine=None, steps=30):
         self.name = name
         self.strategy = strategy      # callable(tier) -> hypothesis strategy of JSON-able cases
         self.execute = execute        # callable(case) -> Result
@@ -43,6 +43,8 @@ class Part:
         self.exhaustive = exhaustive  # callable(tier) -> iterable of cases (finite enumeration)
         self.shrink_quick = shrink_quick
         self.quick_shards = quick_shards
+        self.machine = machine        # callable(tier) -> RuleBasedStateMachine subclass (see C15)
+        self.steps = steps
 
 
 CATALOGUE = {"inc", "dbl", "neg", "pair", "tsum", "size", "wrap", "add2", "cnt", "is_even", "lt3",
@@ -186,6 +188,45 @@ def _run_part(pid, part, tier, seed_value, known_sigs, n_examples, want_shrink):
         phases = [Phase.generate]
         if want_shrink:
             phases.append(Phase.shrink)
+        if part.machine is not None:
+            # stateful mode: the machine records its own trace (= the replayable case); the hooks
+            # below do the accounting and turn a fresh violation into a Hypothesis failure
+            from hypothesis.stateful import run_state_machine_as_test
+            Base = part.machine(tier)
+
+            def on_step(m):
+                bad = [(s_, d) for s_, d in m.violations if s_ not in exclude]
+                if state["target"] is not None:
+                    bad = [(s_, d) for s_, d in bad if s_ == state["target"]]
+                if bad:
+                    if state["target"] is None:
+                        state["target"] = bad[0][0]
+                    case = {"part": part.name, "trace": list(m.trace)}
+                    state["last"] = (case, bad[0][1])
+                    raise _Found(bad[0][0])
+
+            def on_done(m):
+                account({"part": part.name, "trace": list(m.trace)},
+                        Result(m.violations, m.nontrivial(), m.classes()))
+            M = type("M", (Base,), {"on_step": staticmethod(on_step),
+                                    "on_done": staticmethod(on_done)})
+            st_ = settings(max_examples=n_examples, stateful_step_count=part.steps,
+                           database=None, deadline=None, derandomize=False,
+                           report_multiple_bugs=False, phases=phases,
+                           suppress_health_check=list(HealthCheck), print_blob=False,
+                           verbosity=hypothesis.Verbosity.quiet)
+            try:
+                run_state_machine_as_test(seed(seed_value * 7919 + attempt)(M), settings=st_)
+            except _Found:
+                sig = state["target"]
+                case, detail = state["last"]
+                case = minimise_trace(part, case, sig)
+                stats.found[sig] = {"detail": detail, "case": case}
+                exclude.add(sig)
+                continue
+            except hypothesis.errors.Flaky as e:
+                raise HarnessError("non-deterministic machine (harness bug): %s" % e) from e
+            break
         test = given(part.strategy(tier))(body)
         test = seed(seed_value * 7919 + attempt)(test)
         test = settings(max_examples=n_examples, database=None, deadline=None,
@@ -205,6 +246,37 @@ def _run_part(pid, part, tier, seed_value, known_sigs, n_examples, want_shrink):
             raise HarnessError("non-deterministic case (harness bug): %s" % e) from e
         break
     return stats
+
+
+def minimise_trace(part, case, sig, budget=400):
+    """Greedy one-step-at-a-time deletion over a recorded machine trace (Hypothesis' own
+    shrinker is slow on machines and capped at five minutes): keeps a step only if the same
+    violation signature disappears without it."""
+    trace = list(case["trace"])
+
+    def fails(tr):
+        try:
+            res = part.execute({"part": case.get("part"), "trace": tr})
+        except Exception:
+            return False
+        return any(s_ == sig for s_, _ in res.violations)
+    if not fails(trace):
+        return case
+    runs = 0
+    changed = True
+    while changed and runs < budget:
+        changed = False
+        i = len(trace) - 1
+        while i >= 0 and runs < budget:
+            cand = trace[:i] + trace[i + 1:]
+            runs += 1
+            if fails(cand):
+                trace = cand
+                changed = True
+            i -= 1
+    out = dict(case)
+    out["trace"] = trace
+    return out
 
 
 def _regress(args):
